@@ -36,6 +36,9 @@ FLOORS = {'quick': {'conclusive': 100, 'distinct_nontrivial': 50, 'counters': _Q
 CASE_TIMEOUT = {'quick': 120, 'thorough': 300}
 
 
+# appended to RULE in the evidence (vlib/runner.py)
+RULE_ADDENDUM = 'Added in round 5: the head-loss rows of every Open valve and Active TCV swept in both flow directions on the algebraic model (no solve needed); pipe roughness / diameter / minor loss / length changed by time controls during the run; more valve rigs hold the valve Open and push it backwards.'
+
 def n_cases(tier):
     return base_cases(tier) + len(suite.files(tier))     # + the repository's own tests under the monitor (vlib/props/suite.py)
 
